@@ -3,7 +3,7 @@
    failing call); the class of c01_moving_lib_roots_partial is a sub-class. *)
 From BV Require Import Base.Prelude Model.Block Model.ForkDB Model.Forkable Spec.Consumer Spec.Universe
   Spec.C01_Spec Spec.C01_Moving_Spec Spec.C01_Roots_Spec Spec.C01_Wild_Spec
-  Proofs.Fk.StoreFacts Proofs.Fk.WalkFacts Proofs.Fk.LoopFacts Proofs.Fk.FixedLib Proofs.Fk.MovingLibInv Proofs.Fk.WildLibInv
+  Proofs.Fk.StoreFacts Proofs.Fk.WalkFacts Proofs.Fk.LoopFacts Proofs.Fk.FixedLib Proofs.Fk.MovingLibInv Proofs.Fk.WildLibInv Proofs.Fk.WildLibDisc
   Proofs.Fk.FailPrefix Proofs.Fk.FailRun Proofs.C02_Proofs Proofs.C01_Roots_Proofs.
 Local Open Scope N_scope.
 
@@ -149,4 +149,72 @@ Proof.
     + intros y Hy. exact (proj2 (mb2_parts r0 h Hscope y Hy)).
     + intros x Hx. exact (proj1 (mb2_parts r0 h Hscope x Hx)).
   - intros b Hb. exact Hb.
+Qed.
+
+(* ---- discovery mode ---- *)
+Lemma c01_wild_disc_nofail cfg h :
+  c_fail_at cfg = None -> c_hold cfg = true -> c_incl cfg = false ->
+  f_new (c_filter cfg) = true -> f_undo (c_filter cfg) = true -> wf_b h = true ->
+  let t := fk_run cfg (fs_init LNone) h in
+  length t = length h /\ Forall (fun x => snd x = ROk) t /\
+  disc_ok t /\ c01_discipline_b LNone t = true /\ c01_error_b (c_fail_at cfg) 0 t = true /\
+  (lib_mono_b cfg (fs_init LNone) h = true -> c01_refeed_b [] h t = true).
+Proof.
+  intros Hnofail Hhold Hincl Hnew Hundo Hwf.
+  exact (wild_disc_run h cfg Hnofail Hnew Hundo Hhold Hincl (bridge_id h Hwf) (bridge_uniq h Hwf) (bridge_up h Hwf)
+           h (fun b Hb => Hb)).
+Qed.
+
+(* the discipline of the cut run: its events are a prefix of the events of the never-failing run, so the
+   first event (which names the LIB the stream is rooted at) is the same *)
+Lemma disc_root_cut cfg k h : c_fail_at cfg = Some k ->
+  Forall (fun x => snd x = ROk) (fk_run (nofail cfg) (fs_init LNone) h) ->
+  forall S2, apply_all (root_lib LNone (fk_run (nofail cfg) (fs_init LNone) h)) [] (all_events (fk_run cfg (fs_init LNone) h)) = Some S2 ->
+  c01_discipline_b LNone (fk_run cfg (fs_init LNone) h) = true.
+Proof.
+  intros Hf Hok S2 Happ2.
+  set (tN := fk_run (nofail cfg) (fs_init LNone) h) in *. set (t := fk_run cfg (fs_init LNone) h) in *.
+  destruct (run_fail_events cfg k Hf h (fs_init LNone)) as [rest Hrest]; [cbn; lia | exact Hok|].
+  fold tN t in Hrest.
+  unfold c01_discipline_b. destruct (all_events t) as [|e l] eqn:Et.
+  - unfold root_lib. rewrite Et. reflexivity.
+  - assert (Hroot : root_lib LNone t = root_lib LNone tN).
+    { unfold root_lib. rewrite Hrest, Et. reflexivity. }
+    rewrite Hroot, Happ2. reflexivity.
+Qed.
+
+Lemma c01_wild_discovery_discipline_proved : c01_wild_discovery_discipline_statement.
+Proof.
+  intros cfg h Hhold Hincl Hnew Hundo Hwf. cbv zeta.
+  destruct (c_fail_at cfg) as [k|] eqn:Hf.
+  - destruct (c01_wild_disc_nofail (nofail cfg) h eq_refl Hhold Hincl Hnew Hundo Hwf) as (Hlen & Hok & Happ & _).
+    destruct (run_fail_disc cfg k Hf (root_lib LNone (fk_run (nofail cfg) (fs_init LNone) h)) h (fs_init LNone) [])
+      as ((S2 & Happ2) & Herr2 & Hres2).
+    + cbn. lia.
+    + exact Hok.
+    + exact Happ.
+    + split; [exact (disc_root_cut cfg k h Hf Hok S2 Happ2)|].
+      split; [exact Herr2|]. split; [exact Hres2 | intros H; discriminate].
+  - destruct (c01_wild_disc_nofail cfg h Hf Hhold Hincl Hnew Hundo Hwf) as (Hlen & Hok & _ & Hd & He & _).
+    rewrite Hf in He. split; [exact Hd|]. split; [exact He|]. split.
+    + eapply Forall_impl; [|exact Hok]. cbn beta. auto.
+    + intros _. split; assumption.
+Qed.
+
+Lemma c01_wild_discovery_mono_proved : c01_wild_discovery_mono_statement.
+Proof.
+  intros cfg h Hhold Hincl Hnew Hundo Hwf Hmono. rewrite cfg_nofail_eq in Hmono.
+  destruct (c_fail_at cfg) as [k|] eqn:Hf.
+  - destruct (c01_wild_disc_nofail (nofail cfg) h eq_refl Hhold Hincl Hnew Hundo Hwf) as (Hlen & Hok & Happ & _ & _ & Hre).
+    destruct (run_fail_c01 cfg k Hf (root_lib LNone (fk_run (nofail cfg) (fs_init LNone) h)) h (fs_init LNone) [] [])
+      as ((S2 & Happ2) & Hre2 & Herr2 & Hres2).
+    + cbn. lia.
+    + exact Hok.
+    + exact Happ.
+    + exact (Hre Hmono).
+    + unfold c01_statement. split; [exact (disc_root_cut cfg k h Hf Hok S2 Happ2)|].
+      split; [exact Hre2 | rewrite Hf; exact Herr2].
+  - assert (Ec : nofail cfg = cfg) by (destruct cfg; cbn in Hf; subst; reflexivity). rewrite Ec in Hmono.
+    destruct (c01_wild_disc_nofail cfg h Hf Hhold Hincl Hnew Hundo Hwf) as (Hlen & Hok & _ & Hd & He & Hre).
+    unfold c01_statement. split; [exact Hd|]. split; [exact (Hre Hmono) | exact He].
 Qed.
